@@ -300,6 +300,35 @@ def run(ctx):
                 if nfail <= 3:
                     ctx.violation('Resolve disagrees with the expansion of apparmor_parser', {'op': ops[i], 'preamble': text, 'parser': pr, 'tool_attachments': got_att, 'tool_vars': gv})
     ctx.count_distinct(ops)
+    # ---- history: files that start from the built-in tunables (aa.DefaultTunables, as the userspace builder does), resolved one
+    # after the other in ONE process; some append to a built-in tunable.  What a file resolves to must not depend on the files
+    # resolved before it: the same sequence in two orders, differing answers settled in a fresh process.
+    nh = 150 if ctx.tier == 'quick' else 4000
+    hops = []
+    for i in range(nh):
+        var = rng.choice(['bin', 'lib', 'sbin', 'run', 'multiarch', 'HOME', 'MOUNTS', 'user_share_dirs', 'etc_ro'])
+        ent = []
+        if rng.random() < 0.3:
+            ent.append(mk('variable', [var, [rng.choice(['/opt/v%d' % i, '*-suse-linux*', '/srv/{a,b}'])], False]))
+        ent.append(mk('variable', ['exec_path', ['@{%s}/app%d' % (var, i)] + (['@{bin}/alt'] if rng.random() < 0.3 else []), True]))
+        hops.append('%s\t%s' % (esc_list(['@{exec_path}']), '\t'.join(R.enc(e) for e in ent)))
+    fwd = ctx.run_go('resolvedef', hops)
+    order = list(range(nh))
+    rng.shuffle(order)
+    back = dict(zip(order, ctx.run_go('resolvedef', [hops[i] for i in order])))
+    nhd = 0
+    for i in range(nh):
+        if fwd[i] == back[i]:
+            continue
+        alone = ctx.run_go('resolvedef', [hops[i]])[0]
+        for label, got, prior in (('generation order', fwd[i], hops[:i]), ('shuffled order', back[i], [hops[j] for j in order[:order.index(i)]])):
+            if got != alone:
+                nhd += 1
+                if nhd <= 3:
+                    ctx.violation('Resolve: what a file resolves to depends on the files resolved before it in the same process (%s): %s, alone %s' % (
+                        label, got[:200], alone[:200]), {'history': prior[-40:] + [hops[i]], 'suite': 'resolvedef', 'got': got[:1000], 'alone': alone[:1000]})
+    ctx.cov['search']['default_tunables_history'] = {'files': nh, 'orders': 2, 'order_dependent': nhd}
+    ctx.cov['evaluations'] += 2 * nh
     ctx.cov['search']['spec'] = {'preambles': len(cases), 'judged': nj, 'failing': nfail, 'compared_with_apparmor_parser': len(pjobs), 'parser_rejected': nperr}
     ctx.sample({'op': ops[0], 'real_output': go[0][:600]})
 
@@ -334,5 +363,9 @@ def shutil_which(x):
 
 def replay(ctx, data):
     ctx.build_go()
+    if 'history' in data:
+        print('after the history :', ctx.run_go(data.get('suite', 'resolvedef'), data['history'])[-1][:600])
+        print('alone             :', ctx.run_go(data.get('suite', 'resolvedef'), data['history'][-1:])[0][:600])
+        return 0
     print(ctx.run_go('resolve', [data['op']])[0])
     return 0
